@@ -1,6 +1,7 @@
 /-
   Driver for the `uf` family (C13, C03): protocol/thrift/unknownfields.
     uf convert <hex>   => ok <tree> | err <class> | PANIC <class>        ConvertUnknownFields
+    uf get <kind> <hex> => like uf convert | err notstruct | err nofield | PANIC reflect   GetUnknownFields(v)
     uf rt <hex>        => ok <hex'> <len> | err … | PANIC … (convert) | WPANIC … (length/write)   Convert, Length, Write(buf of that length)
     uf write <tree>    => ok <hex> <length|-> | err … | PANIC …          WriteUnknownFields (+ the computed length)
     uf len <tree>      => ok <n> <written|-> | err … | PANIC …           UnknownFieldsLength (+ bytes written)
@@ -210,6 +211,37 @@ def verdictConvert (b : Bytes) (res : String) : String :=
   | "err" :: _ => if ufEncFields MD b then "bad:C13:rejected-valid" else "na"
   | _ => "bad:protocol"
 
+/-- uf get <kind> <hex> -/
+def getArg (kind : String) (b : Bytes) : Option GetArg :=
+  match kind with
+  | "ptr" => some (.structPtr b)
+  | "val" => some (.structVal b)
+  | "nilptr" => some .notStruct
+  | "nil" => some .notStruct
+  | "int" => some .notStruct
+  | "nofield" => some .noField
+  | "nofieldptr" => some .noField
+  | "wrongtype" => some .wrongType
+  | _ => none
+
+def mGet (a : GetArg) : String :=
+  match getUF a with
+  | .ok fs => "ok " ++ showUFs MD fs
+  | .err .notStruct => "err notstruct"
+  | .err .noField => "err nofield"
+  | .err (.conv e) => "err " ++ uerrStr e
+  | .panic s => "PANIC " ++ s
+  | .oob => "OOB"
+
+/-- on a struct (pointer or value) carrying the bytes, GetUnknownFields must do what C13 demands of
+    ConvertUnknownFields on those bytes; the misuse kinds are compared with the model only -/
+def verdictGet (a : GetArg) (res : String) : String :=
+  match a with
+  | .structPtr b | .structVal b =>
+    let v := verdictConvert b res
+    if v.startsWith "bad:C13" then "bad:C13:get(" ++ (v.drop 8).toString ++ ")" else v
+  | _ => "na"
+
 def verdictRt (b : Bytes) (res : String) : String :=
   match res.splitOn " " with
   | "PANIC" :: _ => "bad:C03:panic"
@@ -263,6 +295,13 @@ def handleUf (args : List String) (impl : String) : String × String :=
   | ["uf", "convert", h] =>
     match parseHex h with
     | some b => (mConvert b, verdictConvert b impl)
+    | none => ("bad-op", "na")
+  | ["uf", "get", kind, h] =>
+    match parseHex h with
+    | some b =>
+      match getArg kind b with
+      | some a => (mGet a, verdictGet a impl)
+      | none => ("bad-op", "na")
     | none => ("bad-op", "na")
   | ["uf", "rt", h] =>
     match parseHex h with
